@@ -283,6 +283,21 @@ fn ok_label(x: u32) -> u32 { let mut i = 0; 'a: loop { i += 1; if i > x { break 
 fn bad_generic<T: Copy>(x: T) -> T { x }
 fn bad_match(m: Mode) -> u32 { match m { Mode::A => 1, Mode::B => 2 } }
 fn bad_macro(x: u32) -> u32 { println!("{}", x); x }
+fn glob_match(o: &mut Inner, m: Mode, v: u32) -> bool {
+    use crate::t::Mode::*;
+    match m {
+        A => { o.x = v }
+        B => o.y = v as usize,
+        _ => return false,
+    }
+    true
+}
+fn glob_shadow(m: Mode) -> u32 {
+    use self::Mode::*;
+    if m == A { 7 } else if m == C { 2 } else { 1 }
+}
+fn bad_use(x: u32) -> u32 { use std::cmp::min; min(x, 3) }
+fn bad_glob(x: u32) -> u32 { use crate::other::Unknown::*; x }
 '''
 
 ITEMS = {"T": {
@@ -293,9 +308,9 @@ ITEMS = {"T": {
             ["sum_to", "sum_incl_rev", "first_ge", "count_odd_skip", "find_ret", "collatz", "loop_brk", "while_ret",
              "merged_if", "arrays", "fill", "c2rust_idiom", "twice", "block_arg", "set_inner", "read_outer", "call_mut",
              "alias_field", "mk_inner", "mode_num", "mode_back", "tab", "tup", "use_tup", "opt_chain", "res_early", "slices",
-             "deferred", "nested_loops", "nested_ret", "take_it", "chars", "shadow_in_branch", "ok_label"]] +
+             "deferred", "nested_loops", "nested_ret", "take_it", "chars", "shadow_in_branch", "ok_label", "glob_match", "glob_shadow"]] +
            [{"file": "src/t.rs", "fn": "safe_idx", "safe": True}, {"file": "src/t.rs", "fn": "safe_caller", "safe": True}] +
-           [{"file": "src/t.rs", "fn": n} for n in ["bad_closure", "bad_float", "bad_label", "bad_generic", "bad_match", "bad_macro"]]}}
+           [{"file": "src/t.rs", "fn": n} for n in ["bad_closure", "bad_float", "bad_label", "bad_generic", "bad_match", "bad_macro", "bad_use", "bad_glob"]]}}
 ITEMS["T"]["fns"][5]["fuel"] = "1000"
 
 O1 = "({ inner := { x := 1, y := 2 }, mode := 1, flag := true, arr := [3, 4], opt := some 9 } : Outer)"
@@ -361,8 +376,13 @@ CASES = [
     ("chars", "59"),
     ("ok_label 4", "5"),
     ("(shadow_in_branch 1, shadow_in_branch 4, shadow_in_branch 9)", "(1,9,10)"),
+    # `use Enum::*;` in a body: bare variant names in patterns and expressions; `{ a = b }` closing a block
+    ("glob_match { x := 1, y := 2 } 0 9", "(true,{x:=9,y:=2})"),
+    ("glob_match { x := 1, y := 2 } 1 9", "(true,{x:=1,y:=9})"),
+    ("glob_match { x := 1, y := 2 } 5 9", "(false,{x:=1,y:=2})"),
+    ("(glob_shadow 0, glob_shadow 1, glob_shadow 5)", "(7,1,2)"),
 ]
-REJECTED = ["bad_closure", "bad_float", "bad_label", "bad_generic", "bad_match", "bad_macro"]
+REJECTED = ["bad_closure", "bad_float", "bad_label", "bad_generic", "bad_match", "bad_macro", "bad_use", "bad_glob"]
 
 
 def run_lean(text, name):
@@ -580,6 +600,13 @@ SEEDED_MORE = [
     ("C17", "C17Gen", "src/enc/brotli_bit_stream.rs", "                    as i32\n                    != 0i32\n                {\n                    break 'break5;", "                    as i32\n                    > 1i32\n                {\n                    break 'break5;", False),
     ("C17", "C17Gen", "src/enc/brotli_bit_stream.rs", "            skip_some = 3;\n        }\n    }\n    BrotliWriteBits(2, skip_some, storage_ix, storage);", "            skip_some = 2;\n        }\n    }\n    BrotliWriteBits(2, skip_some, storage_ix, storage);", False),
     ("C17", "C17Gen", "src/enc/brotli_bit_stream.rs", "    for i in skip_some..codes_to_store {\n        let l = code_length_bitdepth[kStorageOrder[i as usize] as usize] as usize;", "    for idx in skip_some..codes_to_store {\n        let l = code_length_bitdepth[kStorageOrder[idx as usize] as usize] as usize;", True),
+    # C20Gen
+    ("C20", "C20Gen", "src/enc/encode.rs", "            if value != 0 && value != 1 {\n                return false;\n            }", "            if value != 0 && value != 1 && value != 2 {\n                return false;\n            }", False),
+    ("C20", "C20Gen", "src/enc/encode.rs", "            params.use_dictionary = (value == 0);", "            params.use_dictionary = (value != 0);", False),
+    ("C20", "C20Gen", "src/enc/encode.rs", "        BROTLI_PARAM_LGWIN => params.lgwin = value as i32,\n        BROTLI_PARAM_LGBLOCK => params.lgblock = value as i32,", "        BROTLI_PARAM_LGWIN => params.lgblock = value as i32,\n        BROTLI_PARAM_LGBLOCK => params.lgwin = value as i32,", False),
+    ("C20", "C20Gen", "src/enc/encode.rs", "        BROTLI_PARAM_MAGIC_NUMBER => params.magic_number = value != 0,\n", "", False),
+    ("C20", "C20Gen", "src/enc/encode.rs", "        if self.is_initialized_ {\n            false\n        } else {\n            set_parameter(&mut self.params, p, value)\n        }", "        set_parameter(&mut self.params, p, value)", False),
+    ("C20", "C20Gen", "src/enc/encode.rs", "        BROTLI_PARAM_APPENDABLE => params.appendable = value != 0,", "        BROTLI_PARAM_APPENDABLE => {\n            let on = value != 0;\n            params.appendable = on;\n        }", True),
     # C18vGen
     ("C18v", "C18vGen", "src/enc/command.rs", "let copylen_code_delta = (copylen_code as i32 - copylen as i32) as i8;", "let copylen_code_delta = (copylen as i32 - copylen_code as i32) as i8;", False),
     ("C18v", "C18vGen", "src/enc/command.rs", "            (self.dist_prefix_ & 0x3ff) == 0,\n            &mut self.cmd_prefix_,", "            (self.dist_prefix_ & 0x3ff) != 0,\n            &mut self.cmd_prefix_,", False),
